@@ -59,6 +59,146 @@ func (g *gen) subReq(o string, tr *tree, n, s, e int64, sh tlog.Hash, p []tlog.H
 	return r
 }
 
+// cosignature blobs (timestamp || signature) of a block of signature lines, by key id
+func (g *gen) linesOf(block string) map[int][]byte {
+	m := map[int][]byte{}
+	for _, l := range strings.SplitAfter(block, "\n") {
+		if name, hash, ok := parseSigLine(l); ok {
+			if id := g.kr.idOf(name, hash); id != 0 {
+				m[id] = sigBytes(l)
+			}
+		}
+	}
+	return m
+}
+
+// ---------------------------------------------------------------------------------------------
+// transplanted cosignatures (multi-step, ONE witness instance): a genuine cosigned checkpoint is served in an ordinary
+// sign-subtree request; afterwards the very same cosignature lines are presented again
+//   - under a DIFFERENT checkpoint of the same origin (the other history's root of the same / a larger / a smaller size, the
+//     next size of the same history, a root of no history), with a subtree hash and proof that ARE valid against that root;
+//   - under the same text with altered lines (reordered, duplicated, the witness's blob under the mirror's key and vice
+//     versa, a flipped bit, another timestamp, truncated), under the non-canonical encoding, with an extension line.
+// Sources of the genuine lines: a checkpoint cosigned by the harness with the witness's and mirror's keys, and one cosigned
+// by the witness itself in an add-checkpoint answer. Before the genuine request the forged one is sent too.
+// ---------------------------------------------------------------------------------------------
+func (g *gen) subTransplant() {
+	for _, mirror := range []bool{true, false} {
+		w := newWorld(g.kr, mirror, g.tmp, []*tree{g.A, g.B})
+		w.restart(1)
+		o := "x.example/log"
+		w.addLog(1, o, kLogA, fOK, fOK, fOK, fOK)
+		type src struct {
+			n     int64
+			lines map[int][]byte
+		}
+		n1, n2 := int64(20), int64(24)
+		g1 := g.ckpt(o, g.A, n1, good(kLogA, kW1, kW2, kM))
+		srcs := []src{{n1, g.linesOf(string(g1.bytes[len(g1.text)+1:]))}}
+		res := w.addSeq(1, g.req(0, nil, g.ckpt(o, g.A, n2, good(kLogA))), fOK, fOK, fOK, false)
+		l2 := g.linesOf(res.raw)
+		gm := g.ckpt(o, g.A, n2, good(kM)) // (the mirror key does not answer add-checkpoint)
+		l2[kM] = g.linesOf(string(gm.bytes[len(gm.text)+1:]))[kM]
+		srcs = append(srcs, src{n2, l2})
+
+		mk := func(size int64, root tlog.Hash, lines map[int][]byte, ids []int, extra func(*noteSpec)) builtNote {
+			ns := noteSpec{kind: "ckpt", origin: o, size: fmt.Sprint(size), root: root, sigs: good(kLogA)}
+			for _, id := range ids {
+				if b := lines[id]; len(b) > 0 {
+					ns.sigs = append(ns.sigs, sigSpec{id, g.kr.reuse(b)})
+				}
+			}
+			if extra != nil {
+				extra(&ns)
+			}
+			return g.kr.build(ns, g.r)
+		}
+		// a request for [s,e) of tree tr at size n (hash and proof right for THAT tree), presenting nt
+		ask := func(tr *tree, n, s, e int64, nt builtNote) {
+			sh, p := tr.subtree(n, s, e)
+			w.sub(1, g.subReq(o, tr, n, s, e, sh, p, nt))
+		}
+		ranges := func(n int64) [][2]int64 {
+			r := [][2]int64{{0, n}}
+			if n >= 6 {
+				r = append(r, [2]int64{4, 6})
+			}
+			if n >= 12 {
+				r = append(r, [2]int64{8, 12})
+			}
+			return r
+		}
+		subsets := [][]int{{kW2}, {kM}, {kW2, kM}, {kW1, kW2}}
+		for _, sc := range srcs {
+			type tgt struct {
+				tr *tree
+				n  int64
+			}
+			tgts := []tgt{{g.B, sc.n}, {g.B, sc.n + 7}, {g.B, 6}, {g.A, sc.n + 1}}
+			bogus := g.randHash()
+			askBogus := func(ids []int) {
+				nb := sc.n + 2
+				r := mkSubBody(subHdr("0", fmt.Sprint(nb), bogus, nil), mk(nb, bogus, sc.lines, ids, nil))
+				r.origin, r.s, r.e, r.sh, r.n, r.root = o, 0, nb, bogus, nb, bogus
+				w.sub(1, r)
+			}
+			all := []int{kW1, kW2, kM}
+			// 0. nothing served yet for these lines: the forged requests
+			ask(g.B, sc.n, 0, sc.n, mk(sc.n, g.B.root(sc.n), sc.lines, []int{kW2, kM}, nil))
+			askBogus([]int{kW2, kM})
+			// 1. the genuine requests
+			for _, r := range ranges(sc.n) {
+				ask(g.A, sc.n, r[0], r[1], mk(sc.n, g.A.root(sc.n), sc.lines, all, nil))
+			}
+			ask(g.A, sc.n, 0, sc.n, mk(sc.n, g.A.root(sc.n), sc.lines, []int{kM}, nil))
+			// 2. the same lines under other checkpoints
+			for _, t := range tgts {
+				for k, ids := range subsets {
+					rs := ranges(t.n)
+					r := rs[k%len(rs)]
+					ask(t.tr, t.n, r[0], r[1], mk(t.n, t.tr.root(t.n), sc.lines, ids, nil))
+				}
+			}
+			for _, ids := range subsets {
+				askBogus(ids)
+			}
+			// 3. the same text, altered lines / encodings
+			rootA := g.A.root(sc.n)
+			alt := func(f func(b []byte) []byte, id int) map[int][]byte {
+				m := map[int][]byte{}
+				for k, v := range sc.lines {
+					m[k] = v
+				}
+				m[id] = f(append([]byte{}, sc.lines[id]...))
+				return m
+			}
+			flip := func(b []byte) []byte { b[len(b)-1] ^= 1; return b }
+			ts := func(b []byte) []byte { b[7] ^= 1; return b }
+			cut := func(b []byte) []byte { return b[:len(b)-1] }
+			for _, nt := range []builtNote{
+				mk(sc.n, rootA, sc.lines, []int{kM, kW2, kW1}, nil),
+				mk(sc.n, rootA, sc.lines, []int{kW2, kW2}, nil),
+				mk(sc.n, rootA, map[int][]byte{kM: sc.lines[kW2]}, []int{kM}, nil),
+				mk(sc.n, rootA, map[int][]byte{kW2: sc.lines[kM]}, []int{kW2}, nil),
+				mk(sc.n, rootA, map[int][]byte{kM: sc.lines[kW2], kW2: sc.lines[kM]}, []int{kW2, kM}, nil),
+				mk(sc.n, rootA, alt(flip, kW2), []int{kW2}, nil),
+				mk(sc.n, rootA, alt(ts, kW2), []int{kW2}, nil),
+				mk(sc.n, rootA, alt(cut, kW2), []int{kW2}, nil),
+				mk(sc.n, rootA, alt(flip, kM), []int{kM}, nil),
+				mk(sc.n, rootA, alt(ts, kM), []int{kW2, kM}, nil),
+				mk(sc.n, rootA, sc.lines, []int{kW2, kM}, func(ns *noteSpec) { ns.noncanon = true }),
+				mk(sc.n, rootA, sc.lines, []int{kW2, kM}, func(ns *noteSpec) { ns.ext = "x\n" }),
+			} {
+				ask(g.A, sc.n, 8, 12, nt)
+			}
+		}
+		// 4. lines of one genuinely cosigned checkpoint under the other genuinely cosigned checkpoint
+		ask(g.A, n2, 0, n2, mk(n2, g.A.root(n2), srcs[0].lines, []int{kW2, kM}, nil))
+		ask(g.A, n1, 8, 12, mk(n1, g.A.root(n1), srcs[1].lines, []int{kW2, kM}, nil))
+		w.monConsistent()
+	}
+}
+
 func validSub(s, e int64) bool { return s >= 0 && s < e && s%bitCeil(e-s) == 0 }
 
 func (g *gen) subtrees(max int64, nrand int) {
